@@ -37,6 +37,42 @@ RUN_OPS = ['list', 'llist', 'save', 'peekcode', 'peekother', 'peekflag', 'bsavec
 FLAG_SENSITIVE = {'list', 'llist', 'peekflag'}     # plus save A/B (checked on the argument)
 
 
+# FIELD width patterns: (model kind, widths).  The FIELD buffer is 128 bytes; the buffer of file #3 (the highest
+# file number of a default session) ends exactly at the start of the program code.
+FIELD_PATTERNS = [
+    ('FFit', [64, 64]), ('FFit', [128]), ('FFit', [1, 100, 27]),
+    ('FOverSmall', [128, 10]), ('FOverSmall', [128, 4, 6]),
+    ('FOverAll', [128, 120, 120]), ('FOverAll', [128, 255, 255]), ('FOverAll', [128, 200]),
+    ('FOverAll', [64, 64, 250]),
+]
+FIELD_VARS = ['A9$', 'B9$', 'C9$']
+
+
+def field_texts(arg, i, token):
+    """(setup statement, FIELD statement, read statements, evaluate expression or None, cleanup)"""
+    fileno, pat, read = arg
+    widths = FIELD_PATTERNS[pat][1]
+    names = FIELD_VARS[:len(widths)]
+    fld = 'FIELD #%d,%s' % (fileno, ','.join('%d AS %s' % (w, n) for w, n in zip(widths, names)))
+    cat = '+'.join(names[1:]) if len(names) > 1 else names[0]
+    ev = None
+    if read == 0:
+        rd = ['PRINT %s' % ';'.join(names)]
+    elif read == 1:
+        rd = ['FOR I9=1 TO LEN(%s):PRINT CHR$(ASC(MID$(%s,I9,1)));:NEXT' % (n, n) for n in names[1:] or names]
+    elif read == 2:
+        rd = ['PRINT MID$(%s,1);LEFT$(%s,200);RIGHT$(%s,200)' % (cat, names[-1], names[-1])]
+    elif read == 3:
+        rd = ['IF INSTR(%s,"%s")>0 THEN PRINT "%s"' % (cat, token, token)]     # a guessing oracle counts
+    elif read == 4:
+        rd = ['D9$=%s:PRINT D9$' % cat, 'OPEN "R",#1,"G%d",128:FIELD #1,128 AS L9$:LSET L9$=%s:PRINT L9$:CLOSE #1'
+              % (i, names[-1])] if fileno != 1 else ['D9$=%s:PRINT D9$' % cat]
+    else:
+        rd = []
+        ev = cat
+    return ('CLOSE #%d:OPEN "R",#%d,"F%d",128' % (fileno, fileno, i), fld, rd, ev, 'CLOSE #%d' % fileno)
+
+
 def tok(rng, n=9):
     return rng.choice('abcdefghijkmnpqrstuvwxyz') + ''.join(rng.choice('abcdefghijkmnpqrstuvwxyz23456789') for _ in range(n - 1))
 
@@ -69,6 +105,7 @@ class Secret(object):
         self.needles = []
         for x in t:
             self.needles += [x.encode(), x.upper().encode()]
+        self.token = t[3]      # in the REM text of line 120 (raw in the tokenised code)
         self.needles += [b'%d' % target, b'%d' % number, bytes([target % 256, target // 256]),
                          bytes([number % 256, number // 256])]
         secret = [
@@ -262,6 +299,9 @@ def op_coq(name, arg, stx):
         return '(ODelete %s)' % core.zl(ALL_CODES if arg == 'all' else list(arg))
     if name == 'autoline':
         return '(OAutoLine %s)' % b(arg)
+    if name == 'field':
+        fileno, pat, _ = arg
+        return '(OField %s %s)' % (b(fileno == 3), FIELD_PATTERNS[pat][0])
     raise ValueError(name)
 
 
@@ -306,6 +346,14 @@ class C16(core.Check):
             {'k': 'd', 'hide': 1, 'stx': 0, 'seed': 7, 'ev': [['load', 'Q', 0], ['list', 0, 0], ['pokeflag', 1, 0],
                                                                ['list', 0, 0], ['peekflag', 0, 0], ['new', 0, 0],
                                                                ['peekflag', 0, 0]]},
+            # FIELD on every file number, fitting and overflowing, every kind of read (seeded change C16b)
+            {'k': 'd', 'hide': 1, 'stx': 0, 'seed': 15, 'ev': [L] + [['field', [3, 5, r], 0] for r in range(6)]},
+            {'k': 'd', 'hide': 1, 'stx': 1, 'seed': 16, 'ev': [L, ['field', [3, 3, 0], 0], ['field', [3, 4, 1], 0],
+                                                                ['field', [3, 6, 5], 0], ['field', [3, 8, 2], 0]]},
+            {'k': 'd', 'hide': 1, 'stx': 0, 'seed': 17, 'ev': [L, ['field', [1, 5, 0], 0], ['field', [2, 7, 1], 0],
+                                                                ['field', [3, 0, 0], 0], ['field', [3, 2, 4], 0]]},
+            {'k': 'd', 'hide': 1, 'stx': 0, 'seed': 18, 'ev': [['load', 'Q', 0], ['field', [3, 5, 0], 0],
+                                                                ['load', 'U', 0], ['field', [3, 5, 0], 0]]},
             # witnesses of the fixed defects D16a (READ) and D16b (RENUM)
             {'k': 'd', 'hide': 1, 'stx': 0, 'seed': 8, 'ev': [L, ['read', 0, 0]]},
             {'k': 'd', 'hide': 1, 'stx': 0, 'seed': 9, 'ev': [L, ['renum', 0, 0]]},
@@ -329,7 +377,7 @@ class C16(core.Check):
                                'peekflag', 'bsavecode', 'bsaveother', 'pokeflag', 'pokecode', 'pokeother',
                                'bloadmissing', 'bloadflag', 'bloadcode', 'bloadother', 'storenew', 'storedel',
                                'merge', 'chainmerge', 'load', 'runfile', 'chain', 'new', 'delete', 'renum', 'read',
-                               'enterrun', 'editprompt'])
+                               'enterrun', 'editprompt', 'field', 'field', 'field'])
             arg = 0
             if name == 'list':
                 arg = rng.randrange(4)
@@ -351,6 +399,8 @@ class C16(core.Check):
                 arg = rng.choice(['P', 'P', 'Q', 'U', 'N'])
             elif name == 'delete':
                 arg = rng.choice([[12], [13], [12, 13], [], 'all'])
+            elif name == 'field':
+                arg = [rng.choice([3, 3, 3, 2, 1]), rng.randrange(len(FIELD_PATTERNS)), rng.randrange(6)]
             running = name in ('enterrun', 'chainmerge') or (name in ('runfile', 'chain') and arg in 'PQ')
             if st['stx'] and running:
                 continue
@@ -509,7 +559,7 @@ class C16(core.Check):
             res = []
             try:
                 for i, (name, arg, ctx) in enumerate(case['ev']):
-                    text = op_text(name, arg, i, sec)
+                    text = op_text(name, arg, i, sec) if name != 'field' else 'REM'
                     if ctx == 1:
                         text = 'X9=1:' + text
                     typed = windows(text.encode('latin1'))
@@ -518,7 +568,26 @@ class C16(core.Check):
                     if ctx == 2:
                         s.execute(b'E%=0:ON ERROR GOTO 9000')
                         del rec[:]
-                    out = s.execute(text.encode('latin1'))
+                    if name == 'field':
+                        setup, fld, reads, ev, cleanup = field_texts(arg, i, sec.token)
+                        typed = windows(fld.encode('latin1'))
+                        s.execute(setup.encode('latin1'))
+                        del rec[:]
+                        out = s.execute(fld.encode('latin1'))
+                        err50 = rec[:1]
+                        for r_ in reads:
+                            out += s.execute(r_.encode('latin1'))
+                        if ev:
+                            try:
+                                v = s.evaluate(ev)
+                                out += v if isinstance(v, bytes) else str(v).encode('latin1', 'replace')
+                            except Exception:
+                                pass
+                        s.execute(cleanup.encode('latin1'))
+                        del rec[:]
+                        rec.extend(err50)
+                    else:
+                        out = s.execute(text.encode('latin1'))
                     if name in ('edit', 'editprompt'):
                         if name == 'editprompt':
                             del rec[:]
